@@ -142,6 +142,14 @@ class Ctx:
         return v
 
 
+_SERIAL = [0]
+
+
+def _next_serial():
+    _SERIAL[0] += 1
+    return _SERIAL[0]
+
+
 def explore(fn, assumptions=(), tally=None, max_paths=100000, timeout_ms=60000):
     """DFS over decision prefixes. fn(ctx) runs the real code under the mode and returns a result.
     Returns list of (ctx, result)."""
@@ -153,6 +161,7 @@ def explore(fn, assumptions=(), tally=None, max_paths=100000, timeout_ms=60000):
         Ctx.cur = ctx
         S.ENV.side = ctx.side
         S.ENV.defined = ctx.defined
+        S.ENV.serial = _next_serial()
         try:
             out = fn(ctx)
         except Infeasible:
